@@ -305,6 +305,24 @@ def collect(obs):
                 META['functions'].append(f)
 
 
+def replay_pairs(obs):
+    """native replay behind every refuted obligation: the pair set of the real NBListGrid (libraries built from the working tree) against a brute-force
+    minimum-image reference on orthorhombic and sheared boxes (seeded search in the precondition domain; the obligations are structural and carry no input)"""
+    bad = [o for o in obs if o['status'] == core.REFUTED and not o.get('replay')]
+    if not bad:
+        return
+    from vlib import native
+    try:
+        exe = native.build('C03.pairs', open(os.path.join(core.VERIF, 'contracts', 'C03', 'replay_pairs.cc')).read(), [], sanitize=False, opt='-O1', libs=native.libs())
+        rc, out, err = native.execute(exe, [], timeout=600)
+        rep = {'reproduced': rc == 1, 'cmd': exe, 'rc': rc, 'stdout': '\n'.join(l for l in out.splitlines() if ' missing 0, spurious 0, duplicates 0' not in l)[-1200:] or out[-400:],
+               'against': 'real Topology / BoundaryCondition / BeadList / NBListGrid (libvotca_csg from the working tree)', 'input_from': 'seeded search in the precondition domain'}
+    except core.Undecided as e:
+        rep = {'reproduced': False, 'error': str(e)}
+    for o in bad:
+        o['replay'] = rep
+
+
 def run(tier, seed, only=None):
     rng = (1, 2, 3) if tier == 'quick' else (1, 2, 3, 4)
     jobs = []
@@ -326,5 +344,6 @@ def run(tier, seed, only=None):
     if only:
         jobs = [j for j in jobs if re.search(only, j[0].__name__ + str(j[1]))]
     obs = core.pmap(jobs)
+    replay_pairs(obs)
     collect(obs)
     return obs, META
